@@ -20,6 +20,7 @@ from bfsa.symexec import Exec
 from bfsa.terms import C, NONE, Term, cval, is_const, mk, show, subterms
 
 from rules.bf3 import BF3, find_guards
+from rules import stackrt
 
 LEVEL = "other"
 VERIF = os.path.dirname(os.path.dirname(os.path.abspath(__file__)))
@@ -184,6 +185,85 @@ def _lin_add(a, b):
     for k, v in b.items():
         out[k] = out.get(k, 0) + v
     return {k: v for k, v in out.items() if v != 0}
+
+
+def import_scenarios(prog, chk, pid, tier):
+    """Bf3File.bf2_import on enumerated record sequences (what parse_bf2_file yields), data-line contents symbolic: the state machine
+    that groups lines into sections, ignores prepare / activate sections, crosses 64 KiB pages and rejects gaps -- interpreted
+    in concrete-control mode; parse_bf2_file and annotations are replaced by the scenario's records / an empty summary"""
+    from bfsa.exprs import sbytes
+    from rules import stackrt as R
+
+    P_ = lambda s_: "%s.%s" % (pid, s_)
+    fi = prog.method(BF3 + ".Bf3File", "bf2_import")
+    where = "%s:%d" % (fi.file, fi.lineno)
+    holder = {}
+
+    def mkline(ex, st, tagtype, ndx, offs, payload):
+        raw = [C(len(payload) + 2)] + [C(b) for b in offs.to_bytes(2, "big")] + list(payload)
+        o = ex.new_obj(st, "obj", cls=None, label="line")
+        a = ex.obj(st, o).attrs
+        a["fwtagtype"], a["fwtagndx"], a["fwtag"], a["rawdata"] = C(tagtype), C(ndx), sbytes(raw), sbytes([C(tagtype)] + raw)
+        return o
+
+    def h_parse(ex, fi_, args, kwargs, st, node):
+        out = []
+        for instr, params in holder["recs"]:
+            p = ex.new_list(st, [mkline(ex, st, *x) for x in params]) if instr == "load" else C(params)
+            out.append(mk("tuple", (C(instr), p)))
+        return ex.new_list(st, out)
+
+    def h_annot(ex, fi_, args, kwargs, st, node):
+        return ex.new_list(st, [])
+
+    stk = R.Stack(prog, extra_hooks={BF3 + ".Bf3File.parse_bf2_file": h_parse, BF3 + ".Bf3File.annotations": h_annot})
+    src = "def drv(f):\n    g = Bf3File.bf2_import(f)\n    return [(x.description, x.blob) for x in g.components]\n"
+    T = {k: prog.fold_class_attr(prog.cls(BF3 + ".BF3TAG"), k) for k in ("TYPE", "FMT")}
+    TY = {k: prog.fold_class_attr(prog.cls(BF3 + ".BF3TYPE"), k) for k in ("MAIN", "LOADER", "PERIPHERAL")}
+
+    def raw_of(tagtype, offs, payload):
+        return [C(tagtype), C(len(payload) + 2)] + [C(b) for b in offs.to_bytes(2, "big")] + list(payload)
+
+    a, b, c, d = R.syms("a", 6), R.syms("b", 9), R.syms("c", 5), R.syms("d", 4)
+    big = R.syms("p", 16)
+    hdr = [("Bf3Update", "1")]
+    scen = [
+        ("main firmware only (two lines)", hdr + [("load", [(0x84, 0, 0, a), (0x84, 1, 6, b)])], [(TY["MAIN"], raw_of(0x84, 0, a) + raw_of(0x84, 6, b))]),
+        ("ignored activate section (0x48) before the main firmware", hdr + [("load", [(0x48, 0, 0, a)]), ("load", [(0x84, 0, 0, b), (0x84, 1, 9, c)])], [(TY["MAIN"], raw_of(0x84, 0, b) + raw_of(0x84, 9, c))]),
+        ("ignored prepare section (0x34) between loader and main firmware", hdr + [("load", [(0x70, 0, 0, a)]), ("load", [(0x34, 0, 0, d)]), ("load", [(0x84, 0, 0, b)])],
+         [(TY["LOADER"], raw_of(0x70, 0, a)), (TY["MAIN"], raw_of(0x84, 0, b))]),
+        ("blob section continued on the next 64 KiB page", hdr + [("load", [(0x3D, 0, 0xFFF0, big), (0x3E, 1, 0x0000, c)])], "reject"),  # does not start at address 0
+        ("blob from address 0 across lines", hdr + [("load", [(0x3D, 0, 0, a), (0x3D, 1, 6, b)]), ("load", [(0x84, 0, 0, c)])], [(TY["MAIN"], raw_of(0x84, 0, c)), (TY["PERIPHERAL"], list(a) + list(b))]),
+        ("blob with a gap", hdr + [("load", [(0x3D, 0, 0, a), (0x3D, 1, 7, b)])], "reject"),
+        ("blob whose second line overlaps", hdr + [("load", [(0x3D, 0, 0, a), (0x3D, 1, 5, b)])], "reject"),
+        ("firmware without the BF3 marker", [("load", [(0x84, 0, 0, a)])], "reject"),
+        ("two main sections separated by an instruction boundary (CHECK_FWVER twice)", hdr + [("CHECK_FWVER", {"VERSIONDESC": "*"}), ("load", [(0x84, 0, 0, a)]), ("CHECK_FWVER", {"VERSIONDESC": "*"}), ("load", [(0x84, 0, 0, b)])],
+         [(TY["MAIN"], raw_of(0x84, 0, a)), (TY["MAIN"], raw_of(0x84, 0, b))]),
+    ]
+    bad = None
+    for label, recs, want in scen:
+        holder["recs"] = recs
+        ex, res = stk.run(BF3, src, {"f": mk("param", "fileobj")})
+        if want == "reject":
+            if not res.dead:
+                bad = bad or (label, "is converted instead of being rejected")
+            continue
+        if res.dead or res.ret is None:
+            bad = bad or (label, "raises (%s)" % (ex._dead[1] if ex._dead else "?"))
+            continue
+        items = ex.iter_items(res.ret, res.state) or []
+        got = []
+        for it in items:
+            dsc, bl = ex.unpack_to(it, 2, res.state, None)
+            do = ex.obj(res.state, dsc)
+            ty = do.kv.get(T["TYPE"]) if do is not None and do.kind == "dict" else None
+            got.append((cval(ty)[0] if ty is not None and is_const(ty) and len(cval(ty)) == 1 else None, R.flat(ex, res, bl)))
+        okc = len(got) == len(want) and all(g[0] == w[0] and g[1] is not None and len(g[1]) == len(w[1]) and all(x is y for x, y in zip(g[1], w[1])) for g, w in zip(sorted(got, key=lambda t: t[0] if t[0] is not None else -1), sorted(want, key=lambda t: t[0])))
+        if not okc:
+            bad = bad or (label, "yields %s, expected %s" % ([(g[0], len(g[1]) if g[1] is not None else None) for g in got], [(w[0], len(w[1])) for w in want]))
+    chk.require(bad is None, P_("import-scenarios"), fi.qualname, "%d record sequences, symbolic line contents" % len(scen), where,
+                "every data line of a non-ignored section is used exactly once in its own section's component (raw lines in order for BF2-compatible sections, the contiguous image for blobs); ignored sections contribute nothing and do not disturb the next section; gaps, overlaps, non-zero starts and a missing BF3 marker are rejected",
+                "%s: %s" % bad if bad else "")
 
 
 def convert_rules(prog, chk, pid):
@@ -431,6 +511,7 @@ def run(prog, chk, tier):
                        "guards are located by relational normal form and must dominate the use they protect; the tag-type tables must agree with each other and with the "
                        "pinned domain table; exec_bf2instrs' stores are grouped by the instruction test that encloses them. Execution on concrete BF2 images is not performed.")
     unpack_rules(prog, chk, "C13")
+    stackrt.guarded(chk, "C13.import-scenarios", import_scenarios, prog, chk, "C13", tier)
     convert_rules(prog, chk, "C13")
     rejection_rules(prog, chk, "C13")
     table_rules(prog, chk, "C13")
